@@ -98,3 +98,27 @@ VARIANTS += [
       "        return Instance(np.asarray(distances, dtype=float),",
       "silent"),
 ]
+
+SP = "moptipyapps/order1d/space.py"
+VARIANTS += [
+    V("to-str-reports-inverse-position", SP,
+      "        for tag, i in tags:\n            row.clear()\n"
+      "            row.append(str(x[i]))\n"
+      "            row.append(float_to_str(x[i] / n))",
+      "        pos = np.argsort(x)\n        for tag, i in tags:\n"
+      "            row.clear()\n            row.append(str(pos[i]))\n"
+      "            row.append(float_to_str(pos[i] / n))", "fire", "D20.7",
+      "seed C20-to-str-reports-inverse-position"),
+    V("silent-to-str-position-hoisted", SP,
+      "            row.append(str(x[i]))\n"
+      "            row.append(float_to_str(x[i] / n))",
+      "            where = x[i]\n            row.append(str(where))\n"
+      "            row.append(float_to_str(where / n))", "silent", "",
+      "hoisted cell"),
+    V("silent-to-str-list-alias", SP,
+      "        for tag, i in tags:\n            row.clear()\n"
+      "            row.append(str(x[i]))",
+      "        xs = x.tolist()\n        for tag, i in tags:\n"
+      "            row.clear()\n            row.append(str(xs[i]))",
+      "silent", "", "same values through a list copy"),
+]
